@@ -14,6 +14,7 @@ package main
 
 import (
 	"context"
+	"time"
 	"fmt"
 	"math/rand"
 	"sort"
@@ -357,6 +358,7 @@ func clusterIDGated(r *ev.Run, e *etcdx.Etcd, cl []*etcdx.Client) {
 				x.fromRev, x.mode = rev, "gated"
 				x.reset()
 				s := sched.New()
+				s.Settle = 250 * time.Millisecond // contenders never block each other; only a starved start-up would need it
 				for _, c := range x.cl {
 					c.Gate, c.Done = s.Gate, s.Done
 				}
